@@ -228,6 +228,7 @@ func (s *scheduler) syncPoint() {
 		return
 	}
 	s.g2points++
+	s.i.run.intrinsics["vm.G2 scheduling point (synchronisation call of the code under analysis)"]++
 	c := s.candidates(true)
 	if len(c) < 2 {
 		return
@@ -235,6 +236,7 @@ func (s *scheduler) syncPoint() {
 	next := s.pick(c, "g2")
 	if next != s.current {
 		s.g2budget--
+		s.i.run.intrinsics["vm.G2 pre-emption taken"]++
 		s.switchTo(next)
 	}
 }
